@@ -6,6 +6,7 @@ import (
 	"math/big"
 	"os"
 	"reflect"
+	"runtime/debug"
 	"sort"
 	"strconv"
 	"strings"
@@ -488,6 +489,7 @@ type c18Case struct {
 	T    any    `json:"T"`
 	Opt  string `json:"opt"`
 	Vals []any  `json:"vals"`
+	Reps any    `json:"reps"` // optional: number of repetitions with fresh generators
 }
 
 const c18RootName = "VerifRootSchema"
@@ -571,7 +573,40 @@ func c18Run(c *Case) []any {
 		line["tng"] = T{"k": dk, "v": tv}
 	}
 
-	// generate
+	// One line per repetition, each with a fresh generator: what ends up in the component map can
+	// depend on map iteration order inside the generator, so TLC asks for the types concerned to be
+	// generated several times and judges every run.
+	reps := 1
+	if tc.Reps != nil {
+		reps = asInt(tc.Reps)
+	}
+	// Runs with the same observation are logged as one line (rep = the first such run, nrep = how
+	// many): TLC's verdict on a line is its verdict on each of those runs.
+	lines := []any{}
+	index := map[string]map[string]any{}
+	for r := 0; r < reps; r++ {
+		l := map[string]any{}
+		for k, v := range line {
+			l[k] = v
+		}
+		c18GenerateAndVisit(l, t, &tc)
+		key, err := json.Marshal(l)
+		if err != nil {
+			panic(err)
+		}
+		if first, ok := index[string(key)]; ok {
+			first["nrep"] = first["nrep"].(int) + 1
+			continue
+		}
+		l["rep"], l["nrep"] = r, 1
+		index[string(key)] = l
+		lines = append(lines, l)
+	}
+	return lines
+}
+
+// c18GenerateAndVisit runs the generator once for type t and fills in the observations.
+func c18GenerateAndVisit(line map[string]any, t reflect.Type, tc *c18Case) any {
 	schemas := openapi3.Schemas{}
 	var ref *openapi3.SchemaRef
 	var err error
@@ -580,12 +615,12 @@ func c18Run(c *Case) []any {
 	}); p {
 		line["gen"] = "panic"
 		line["generr"] = msg
-		return []any{line}
+		return line
 	}
 	if err != nil || ref == nil {
 		line["gen"] = "error"
 		line["generr"] = fmt.Sprint(err)
-		return []any{line}
+		return line
 	}
 	line["gen"] = "ok"
 	rootJSON, err1 := json.Marshal(ref)
@@ -601,7 +636,7 @@ func c18Run(c *Case) []any {
 	if err1 != nil || err2 != nil {
 		line["gen"] = "unmarshalable"
 		line["generr"] = fmt.Sprint(err1, err2)
-		return []any{line}
+		return line
 	}
 	rootDec, _ := c18DecodeNumber(rootJSON)
 	line["S"] = c18SchemaToAbs(rootDec)
@@ -637,18 +672,18 @@ func c18Run(c *Case) []any {
 	if p, msg := guard(func() { doc, err = openapi3.NewLoader().LoadFromData(docJSON) }); p {
 		line["load"] = "panic"
 		line["loaderr"] = msg
-		return []any{line}
+		return line
 	}
 	if err != nil {
 		line["load"] = "error"
 		line["loaderr"] = err.Error()
-		return []any{line}
+		return line
 	}
 	rootRef := doc.Components.Schemas[c18RootName]
 	if rootRef == nil || rootRef.Value == nil {
 		line["load"] = "error"
 		line["loaderr"] = "root schema not resolved"
-		return []any{line}
+		return line
 	}
 	line["load"] = "ok"
 	root := rootRef.Value
@@ -676,7 +711,7 @@ func c18Run(c *Case) []any {
 		vals = append(vals, ent)
 	}
 	line["vals"] = vals
-	return []any{line}
+	return line
 }
 
 func init() {
@@ -687,6 +722,13 @@ func init() {
 	timeout := 20000
 	if v, err := strconv.Atoi(os.Getenv("VERIF_C18_TIMEOUT_MS")); err == nil && v > 0 {
 		timeout = v
+	}
+	// The witness of the listed non-termination (field discovery recursing forever) allocates
+	// quadratically in the recursion depth; in its own driver process the pipeline caps the stack
+	// (VERIF_C18_MAXSTACK_KB) so that the run ends at once with Go's fatal "stack overflow", which
+	// the runner records as the observation "crash".
+	if kb, err := strconv.Atoi(os.Getenv("VERIF_C18_MAXSTACK_KB")); err == nil && kb > 0 {
+		debug.SetMaxStack(kb << 10)
 	}
 	drivers["C18"] = &Driver{
 		Run:              c18Run,
